@@ -125,7 +125,7 @@ func (w *World) project(ctx sdk.Context) St {
 		}
 		for _, c := range w.app.BankKeeper.GetAllBalances(ctx, w.acct[a]) {
 			if d, ok := abstractDenom(c.Denom); ok {
-				st.Bal[a][d] += toInt(c.Amount, "balance "+a)
+				st.Bal[a][d] += clampTracked(c.Amount)
 			}
 		}
 	}
@@ -134,7 +134,7 @@ func (w *World) project(ctx sdk.Context) St {
 	}
 	w.app.BankKeeper.IterateTotalSupply(ctx, func(c sdk.Coin) bool {
 		if d, ok := abstractDenom(c.Denom); ok {
-			st.Supply[d] += toInt(c.Amount, "supply "+d)
+			st.Supply[d] += clampTracked(c.Amount)
 		}
 		return false
 	})
@@ -185,6 +185,21 @@ func (w *World) project(ctx sdk.Context) St {
 	cp, _ := w.app.CCTPKeeper.GetBurningAndMintingPaused(ctx)
 	st.Env.CctpPaused = cp.Paused
 	return st
+}
+
+// clampTracked converts a tracked balance / supply. Values of the test-bed stay below 10^7; a larger
+// one can only appear when the code under test misbehaves (e.g. credits a 2^256-1 voucher it should
+// have refused). It is clamped to 10^8 so that the specification's sums stay within TLC's integers:
+// every comparison with an expected value then fails, as it should, instead of aborting the run.
+func clampTracked(i math.Int) int64 {
+	const lim = 100_000_000
+	if i.IsNil() {
+		return 0
+	}
+	if !i.IsInt64() || i.Int64() > lim {
+		return lim
+	}
+	return i.Int64()
 }
 
 // capInt converts an amount that is only compared for "larger than before / positive" (never used
